@@ -347,6 +347,46 @@ fn enc(t: &str) -> String {
   }
 }
 
+/// credentials whose subject is held as an ARRAY (0, 1 or 2 elements; what reading `"credentialSubject": [..]` gives):
+/// converting to claims either is refused or the claims convert back to an equal credential.  Implementation only.
+fn encm(t: &str) -> String {
+  let m = kv(t);
+  let (Some(Some(arity)), Some(Some(rest)), Some(sub)) = (oint(&m, "n"), oint(&m, "rest"), oint(&m, "sub")) else { return "bad-request".into() };
+  let mut cj = rest_members(rest as u32);
+  cj.insert("issuer".into(), json!(did_i(1)));
+  cj.insert("issuanceDate".into(), json!(rfc(1262304000).unwrap()));
+  let one = cj.get("credentialSubject").cloned().unwrap_or(json!({}));
+  let subjects: Vec<Value> = (0..arity)
+    .map(|i| {
+      let mut s = one.clone();
+      if let (Some(n), Value::Object(o)) = (sub, &mut s) {
+        o.insert("id".into(), json!(sid(n + i)));
+      } else if let Value::Object(o) = &mut s {
+        o.insert("k".into(), json!(i));
+      }
+      s
+    })
+    .collect();
+  cj.insert("credentialSubject".into(), Value::Array(subjects));
+  let cred: Credential = match Credential::from_json_value(Value::Object(cj)) {
+    Ok(c) => c,
+    Err(_) => return "u:not-a-credential".into(),
+  };
+  let claims_s = match cred.serialize_jwt(None) {
+    Ok(s) => s,
+    Err(_) => return "u:refused".into(),
+  };
+  let issuer = json!(did_i(1));
+  let (hdr, key) = header_for(&issuer);
+  let jwt = Jwt::new(sign_compact(&hdr, &claims_s, key));
+  let v = JwtCredentialValidator::with_signature_verifier(ToyVerifier);
+  match v.verify_signature::<CoreDocument, Object>(&jwt, &issuer_docs(), &JwsVerificationOptions::default()) {
+    Ok(d) if d.credential == cred => "u:ok".into(),
+    Ok(d) => format!("u:ok\t#FAIL:roundtrip-not-equal:a credential whose subject is an array of {} converts to claims that convert back to {}", arity, d.credential.to_json().unwrap_or_default()),
+    Err(e) => format!("u:ok\t#FAIL:roundtrip-not-equal:the library's own claims set is refused: {:?}", e),
+  }
+}
+
 fn dec(t: &str) -> String {
   let m = kv(t);
   let g = |k: &str| oint(&m, k);
@@ -602,6 +642,7 @@ fn pdec(t: &str) -> String {
 pub fn run(args: &[&str]) -> String {
   match args {
     ["enc", t] => enc(t),
+    ["encm", t] => encm(t),
     ["dec", t] => dec(t),
     ["penc", t] => penc(t),
     ["pdec", t] => pdec(t),
@@ -638,6 +679,13 @@ pub fn gen(thorough: bool, seed: u64, out: &mut impl Write) {
           o(if mask & 8 != 0 { Some(r.below(5) as i64) } else { None })
         )
         .unwrap();
+      }
+    }
+  }
+  for rest in 0..NREST {
+    for n in 0..3 {
+      for sub in ["~", "2"] {
+        writeln!(out, "C07 encm n={};rest={};sub={}", n, rest, sub).unwrap();
       }
     }
   }
